@@ -546,3 +546,24 @@ mod tests {
         Ok(())
     }
 }
+
+/// Verification hooks (C19): read-only accessors.
+#[cfg(feature = "verif-hooks")]
+impl IpSender {
+    pub(crate) fn verif_config(&self) -> Config {
+        self.config
+    }
+}
+
+#[cfg(feature = "verif-hooks")]
+impl IpTransports {
+    /// `(configs of v4 in stored order, default_v4_index, configs of v6, default_v6_index)`.
+    pub(crate) fn verif_layout(&self) -> (Vec<Config>, Option<usize>, Vec<Config>, Option<usize>) {
+        (
+            self.v4.iter().map(|t| t.config).collect(),
+            self.default_v4_index,
+            self.v6.iter().map(|t| t.config).collect(),
+            self.default_v6_index,
+        )
+    }
+}
